@@ -193,13 +193,15 @@ var propC05 = e1Prop("C05",
 var propC16 = e1Prop("C16",
 	"scripts of profile 'tracks' (every track-list shape Start accepts, 0-4 audio, names/languages/default flags, query strings, frequent parameter changes); multivariant playlist checked after every rotation; non-trivial = >= 2 renditions or a parameter change observed",
 	profTracks, 1, false, true,
-	func(sc e1Scenario, r *mux.E1Result) bool { return r.Observed > 0 && (r.Renditions >= 2 || r.ParamChanges > 0) })
+	func(sc e1Scenario, r *mux.E1Result) bool {
+		return r.Observed > 0 && (r.Renditions >= 2 || r.ParamChanges > 0)
+	})
 
 var propC18 = e1Prop("C18",
 	"scripts of profile 'retention' (long histories, small SegmentMaxSize with payloads straddling it, RAM/disk); listed count, directory contents, URL table size (hook), expired segment/part URIs, rejection of oversized writes; non-trivial = >= 10 x SegmentCount rotations or a write rejected for size",
 	profRetention, 4, true, false,
 	func(sc e1Scenario, r *mux.E1Result) bool {
-		return r.Completed >= 10*sc.Script.Config.SegmentCount || r.RejectedForSize
+		return r.Completed >= 10*sc.Script.Config.SegmentCount || (r.RejectedForSize && r.Completed >= 2)
 	})
 
 func TestC01(t *testing.T) { core.Run(t, propC01) }
@@ -209,3 +211,75 @@ func TestC04(t *testing.T) { core.Run(t, propC04) }
 func TestC05(t *testing.T) { core.Run(t, propC05) }
 func TestC16(t *testing.T) { core.Run(t, propC16) }
 func TestC18(t *testing.T) { core.Run(t, propC18) }
+
+// ---- C19 -------------------------------------------------------------------------------------
+
+var profRegular = mux.Profile{Name: "regular", Variants: []int{mux.VariantLL}, LeadUnits: [2]int{60, 400}, MaxAudio: 1, ConstantLL: true, ParamRate: 2}
+
+// constantLeadTicks returns the constant distance between consecutive leading units (0 if not constant).
+func constantLeadTicks(sc mux.Script) int64 {
+	lead := sc.Config.LeadingTrack()
+	spec := sc.Config.Tracks[lead]
+	var prev int64
+	var d int64 = -1
+	first := true
+	for _, op := range sc.Ops {
+		if op.Track != lead || op.Kind == mux.KindParamOnly || op.Kind == mux.KindSEI {
+			continue
+		}
+		n := op.N
+		if n < 1 {
+			n = 1
+		}
+		if !spec.IsVideo() && n != 1 {
+			return 0
+		}
+		if !first {
+			if d >= 0 && op.TS-prev != d {
+				return 0
+			}
+			d = op.TS - prev
+		}
+		first = false
+		prev = op.TS
+	}
+	if d <= 0 {
+		return 0
+	}
+	return d
+}
+
+var propC19 = core.Prop[e1Scenario]{
+	ID: "C19",
+	Rule: "Low-Latency scripts with a constant leading sample duration (video 750..90000 ticks incl. 1001-based rates, AAC 1024 samples at all standard rates, Opus frame sizes) x PartMinDuration 50 ms..2 s (5 ms grid and off grid) x SegmentMinDuration x key-frame spacing, video-led and audio-only, optional parameter change; " +
+		"oracle on every playlist: non-final parts all equal, within 85..100% of PART-TARGET, >= PartMinDuration, < 2*max(PartMinDuration, sample)+sample, PART-TARGET stable; non-trivial = >= 3 non-final parts observed",
+	Draw: func(t *rapid.T) e1Scenario {
+		return e1Scenario{Script: mux.DrawScript(t, profRegular), ObserveEvery: 3}
+	},
+	Exec: func(sc e1Scenario) core.Outcome {
+		var o core.Outcome
+		ticks := constantLeadTicks(sc.Script)
+		if ticks == 0 {
+			o.Skip = true
+			return o
+		}
+		r := mux.RunE1(sc.Script, mux.E1Opts{ObserveEvery: sc.ObserveEvery, TmpBase: os.Getenv("VERIF_TMP"), Regularity: true, SampleTicks: ticks, NoDecode: true})
+		o.Labels = scriptLabels(sc.Script, r)
+		if r.Skip != "" {
+			o.Skip = true
+			return o
+		}
+		o.NonTrivial = r.NonFinalParts >= 3
+		for _, v := range r.Violations {
+			if v.Prop != "C19" {
+				o.Labels = append(o.Labels, "other-property-violated:"+v.Prop)
+			}
+		}
+		if m := r.Has("C19"); m != "" {
+			o.Violation = m
+		}
+		return o
+	},
+}
+
+func TestC19(t *testing.T) { core.Run(t, propC19) }
